@@ -1,8 +1,9 @@
 #!/bin/sh
-# Builds the whole Lean library (models, theorems) and every line-protocol driver, offline.
-set -e
-cd "$(dirname "$0")/lean"
-EXES=$(sed -n 's/^name = "\(drv_[a-z0-9_]*\)"/\1/p' lakefile.toml)
-# regenerate the translator outputs first so the library builds against the current /repo
-if [ -x ../harness/translate_all.py ]; then /venv/bin/python ../harness/translate_all.py; fi
-lake build OdfModel $EXES
+# Builds the Lean library (models, theorems) and every line-protocol driver, offline.
+cd "$(dirname "$0")/lean" || exit 2
+if [ -f ../harness/translate_all.py ]; then /venv/bin/python ../harness/translate_all.py || echo "setup: translate_all failed (checks re-translate themselves)"; fi
+lake build OdfModel || exit 1
+for exe in $(sed -n 's/^name = "\(drv_[a-z0-9_]*\)"/\1/p' lakefile.toml); do
+  lake build "$exe" || echo "setup: driver $exe did not build (its check will report it)"
+done
+exit 0
